@@ -38,6 +38,15 @@ def val(v):
     if v["k"] == "int":
         n = int(v["v"])
         return "(VInt %d%%Z)" % n if n >= 0 else "(VInt (%d)%%Z)" % n
+    if v["k"] == "dec":
+        return "(VDec %s)" % coq_hex(hexs(v["v"]))
+    if v["k"] == "bytes":
+        return "(VBytes %s)" % coq_hex(v.get("v", ""))
+    if v["k"] == "time":
+        import datetime
+        t = datetime.datetime.strptime(v["v"], "%Y-%m-%d %H:%M:%S.%f").replace(tzinfo=datetime.timezone.utc)
+        us = (t - datetime.datetime(1970, 1, 1, tzinfo=datetime.timezone.utc)) // datetime.timedelta(microseconds=1)
+        return "(VTime %d%%Z)" % us
     if v["k"] == "float":
         import struct
         return "(VFloat %d)" % struct.unpack(">Q", struct.pack(">d", float(v["v"])))[0]
@@ -113,8 +122,8 @@ def slim(c):
 SIZES = {  # per property: harness arguments per tier
     "C01": {"quick": dict(n01=700, n10r=0, n10f=12, n10m=0, n09=0, ncor=20, kf=4),
             "thorough": dict(n01=5000, n10r=0, n10f=60, n10m=0, n09=0, ncor=100, kf=0)},
-    "C10": {"quick": dict(n01=0, n10r=250, n10f=60, n10m=120, n09=0, ncor=0, kf=6),
-            "thorough": dict(n01=0, n10r=1200, n10f=300, n10m=800, n09=0, ncor=0, kf=0)},
+    "C10": {"quick": dict(n01=0, n10r=150, n10f=40, n10m=80, n09=0, ncor=0, kf=6, n10x=100),
+            "thorough": dict(n01=0, n10r=1200, n10f=300, n10m=800, n09=0, ncor=0, kf=0, n10x=1000)},
     "C09": {"quick": dict(n01=0, n10r=0, n10f=0, n10m=0, n09=900, ncor=0, kf=0),
             "thorough": dict(n01=0, n10r=0, n10f=0, n10m=0, n09=8000, ncor=0, kf=0)},
 }
